@@ -1086,7 +1086,15 @@ def str_method(I, s, name, args, kwargs, node=None):
 
 def bytes_method(I, b, name, args, kwargs, node=None):
     ctx = I.ctx
-    if isinstance(b, bytes) and all(not isinstance(a, Sym) for a in args):
+    if name == "join" and isinstance(b, bytes) and b == b"" and len(args) == 1 and isinstance(args[0], ListV) and args[0].prefix is None:
+        items = args[0].items
+        if not items:
+            return b""
+        if all(isinstance(x, bytes) for x in items):
+            return b"".join(items)
+        zsq = [zbytes(x) for x in items]
+        return SBytes(z3.Concat(*zsq) if len(zsq) > 1 else zsq[0])
+    if isinstance(b, bytes) and all(not isinstance(a, (Sym, ListV)) for a in args):
         try:
             r = getattr(b, name)(*args, **kwargs)
         except UnicodeDecodeError as e:
